@@ -1,15 +1,18 @@
 """C15 PPT and separability verdicts are sound."""
 from __future__ import annotations
 
-import math
+import itertools
+import traceback
 from fractions import Fraction
 
 import numpy as np
 
-from symnp.array import SymArray, has_sym
-from symnp.core import And, Or, SymBool
-from symnp.harness import Obligation, eq, implies, is_symbolic
-from toqito.state_props import in_separable_ball, is_npt, is_ppt
+from props.common import Task
+from symnp.array import HANDLERS, SymArray, _EighResult, handles, has_sym, kernel, lifted, sarr
+from symnp.core import And, Or, SymBool, as_z3, cur, lift
+from symnp.harness import Obligation, eq, implies, is_symbolic, jsonable
+from toqito.state_props import has_symmetric_extension, in_separable_ball, is_npt, is_ppt
+from toqito.state_props.is_separable import is_separable
 
 META = {
     "id": "C15",
@@ -18,17 +21,63 @@ META = {
               "toqito/state_props/has_symmetric_extension.py", "toqito/state_props/in_separable_ball.py",
               "toqito/matrix_props/is_positive_semidefinite.py", "toqito/matrix_props/is_hermitian.py",
               "toqito/channels/partial_transpose.py", "toqito/channels/partial_trace.py", "toqito/channels/realignment.py",
-              "toqito/perms/permute_systems.py", "toqito/matrix_props/trace_norm.py"],
-    "functions": ["toqito.state_props.is_ppt", "toqito.state_props.is_npt", "toqito.state_props.in_separable_ball"],
-    "explanation": "",
-    "bounds": {"quick": "", "thorough": ""},
-    "trusted_base": [],
-    "outside_claim": [],
-    "assumptions": ["floats modelled as reals"],
+              "toqito/perms/permute_systems.py", "toqito/perms/swap.py", "toqito/matrix_props/trace_norm.py",
+              "toqito/state_props/schmidt_rank.py", "toqito/channel_ops/partial_channel.py"],
+    "functions": ["toqito.state_props.is_ppt", "toqito.state_props.is_npt", "toqito.state_props.in_separable_ball",
+                  "toqito.state_props.has_symmetric_extension", "toqito.state_props.is_separable"],
+    "explanation": "Bounded symbolic execution of the real functions with every LAPACK kernel an uninterpreted function of its "
+                   "argument's normal form (decided modulo kernel contracts). is_ppt/is_npt: for a symbolic Hermitian rho the verdict "
+                   "is proved equivalent to 'every value of the Hermitian eigenvalue kernel applied to PT_sys(rho) is >= -tol', PT_sys "
+                   "written with an explicit index map (congruence: same kernel symbols iff the argument is entry-wise the partial "
+                   "transpose); a second family with known spectrum (PT_sys(rho) = Q diag(lam) Q^T, spectral theorem stated as the "
+                   "kernel contract for that matrix) lets solver models of the tolerance test be replayed on the real code. "
+                   "in_separable_ball: the returned test is proved equivalent to Tr(mat) >= n*eps and (n-1)*||mat||_F^2 <= Tr(mat)^2 "
+                   "(Gurvits-Barnum: Tr(rho^2) <= 1/(n-1) for rho = mat/Tr mat), linear arithmetic plus five elementary lemmas "
+                   "about 1/x and sqrt (cross-checked in genuine nonlinear arithmetic for small n). has_symmetric_extension: which "
+                   "branch decides (level 1 / total dimension <= 6 => PPT and PSD kernel tests; 2 qubits without PPT => the closed "
+                   "form Tr rho_B^2 >= Tr rho^2 - 4 sqrt(det rho); else the hierarchy value, an uninterpreted symbol). is_separable: "
+                   "(i) for total dimension <= 6 the verdict equals the PPT kernel test on rho/Tr(rho); (ii) on every path where the "
+                   "PPT kernel test fails by a margin the result is False; (iii) on the family of product mixtures "
+                   "sum_k a_k a_k^dagger (x) b_k b_k^dagger (all entries of a_k, b_k symbolic; PSD-by-construction stated for the two "
+                   "eigenvalue kernels) no feasible path may end in an exception: every line up to the spectrum sort (line 153) is "
+                   "explored for all kernel outcomes; beyond it only the paths on which np.linalg.eig returns a real descending "
+                   "spectrum are explored (an under-approximation: sound for finding reachable exceptions, every candidate is "
+                   "replayed on concrete product mixtures; not a proof of absence). What symbolic execution cannot reach (argsort / "
+                   "orth / the SDP) is covered by concrete-instance obligations on a deterministic, stated family of product "
+                   "mixtures: these are executions of the real code, not solver proofs, and are labelled as such.",
+    "bounds": {
+        "quick": "is_ppt/is_npt: dims 2x2, 2x3, 3x2, party 1|2, dim as list / int / omitted, tol default / symbolic in (0,1]; "
+                 "ball: n in {2,3,4,6} matrix (Hermitian, real symmetric) and eigenvalue vector; has_symmetric_extension: dims 2x2, 2x3, "
+                 "3x2, 3x3, 2x4, level 1|2, ppt flag, dim as list / int / omitted; is_separable: Hermitian rho 2x2, 2x3, 3x2 "
+                 "(agreement), + 3x3, 2x4, 4x2 (NPT => False); product mixtures K<=2 terms real/complex 2x2..3x3, 2x4, 4x2, 4x4 "
+                 "(one symbolic term + fixed 4-term background); concrete family K in {1,2,3,5,n+1}",
+        "thorough": "adds is_ppt 3x3, 2x4; ball n = 8, 9; NPT => False for 4x4, 3x4; mixtures K = 3; concrete family dims 3x4, 2x5, 4x3",
+    },
+    "trusted_base": ["numpy object-array semantics = numeric semantics", "z3 5.1.0",
+                     "kernel contracts used as assumptions: (a) spectral theorem for Q diag(lam) Q^T with the fixed rational orthogonal Q "
+                     "of the cfg; (b) eigvalsh(M^T) = eigvalsh(M); (c) eigenvalue kernels of PSD-by-construction matrices "
+                     "(sum_k v_k v_k^dagger (x) w_k w_k^dagger and its partial transpose) are >= 0; (d) np.linalg.eig of an exactly "
+                     "real-symmetric matrix returns a real spectrum",
+                     "elementary lemmas for the ball test (q>=0: q<=1 <=> q^2<=1; u=1/R, t=1/T: u*u*R=u, u*t*T=u; "
+                     "u>=c <=> c*R<=1 for R>0,c>0; c*t^2*S<=1 <=> c*S<=T^2), each a consequence of the definitions; negative control "
+                     "shows they are consistent",
+                     "stub for picos.partial_trace(rho,[0]) on two qubits = trace over the first qubit (checked against picos at import)"],
+    "outside_claim": ["soundness of each literature criterion used by is_separable after the PPT test (realignment, Zhang et al., spectrum, "
+                      "Hildebrand, rank-4 3x3 determinant, Gurvits ball, Vidal-Tarrach, operator Schmidt rank, Ha-Kye and Breuer-Hall maps): "
+                      "theorems evaluated through LAPACK, only exercised on the concrete family",
+                      "invariance of the is_separable verdict under local unitaries and under exchanging the parties (similarity "
+                      "invariance of kernels)",
+                      "the value of the symmetric-extension SDP (uninterpreted); is_separable paths on which np.linalg.eig returns an "
+                      "unsorted or complex spectrum beyond line 153",
+                      "numerical accuracy of eigh/eig/svd/matrix_rank; dimensions above the bound"],
+    "assumptions": ["floats modelled as reals", "states have non-zero trace"],
 }
 
 SQRT_EPS = float(np.sqrt(np.finfo(float).eps))   # the documented default tolerance of is_ppt
+EPS = float(np.finfo(float).eps)
 PSD_ATOL = 1e-8                                   # the documented default absolute tolerance of is_positive_semidefinite
+SEP_TOL = 1e-8                                    # the documented default tolerance of is_separable
+MARGIN = 1e-3                                     # relative margin around a documented threshold (floating point cannot sit on it)
 
 
 # ---- polymorphic helpers (symbolic and numeric) ---------------------------------------------------
@@ -48,6 +97,12 @@ def disj_any(conds):
 
 def neg(c):
     return ~c if isinstance(c, SymBool) else (not bool(c))
+
+
+def both(p, q):
+    if isinstance(p, SymBool) or isinstance(q, SymBool):
+        return SymBool(p) & SymBool(q)
+    return bool(p) and bool(q)
 
 
 def as_num(a):
@@ -79,17 +134,63 @@ def pt_explicit(rho, dA, dB, sys):
     return as_num(out)
 
 
+def trace_explicit(m):
+    m = np.asarray(m)
+    tot = 0
+    for k in range(m.shape[0]):
+        tot = tot + m[k, k]
+    return tot
+
+
+def normalised(rho):
+    rho = np.asarray(rho)
+    t = trace_explicit(rho)
+    out = np.empty(rho.shape, dtype=object)
+    for idx in np.ndindex(*rho.shape):
+        out[idx] = rho[idx] / t
+    return as_num(out)
+
+
 def eigs_h(m):
     """the Hermitian eigenvalue kernel (is_positive_semidefinite calls np.linalg.eigh: same uninterpreted eigenvalue symbols)"""
     return list(np.asarray(np.linalg.eigvalsh(m)).ravel())
 
 
-def min_eig_at_least(m, thr):
+def all_eigs_at_least(m, thr):
     return conj_all([x >= thr for x in eigs_h(m)])
+
+
+def some_eig_below(m, thr):
+    return disj_any([x < thr for x in eigs_h(m)])
 
 
 def dim_argument(form, dA, dB):
     return {"list": [dA, dB], "int": dA, "omitted": None}[form]
+
+
+def householder(n):
+    """rational orthogonal matrix I - 2 vv^T/(v^T v), v = (1,...,1)"""
+    q = np.empty((n, n), dtype=object)
+    for a in range(n):
+        for c in range(n):
+            q[a, c] = Fraction(int(a == c)) - Fraction(2, n)
+    return q
+
+
+def identity_q(n):
+    return np.array([[Fraction(int(a == c)) for c in range(n)] for a in range(n)], dtype=object)
+
+
+def q_diag_qt(Q, lam):
+    n = len(lam)
+    M = np.empty((n, n), dtype=object)
+    for a in range(n):
+        for c in range(n):
+            tot = 0
+            for k in range(n):
+                tot = tot + (Q[a, k] * Q[c, k]) * lam[k]
+            M[a, c] = tot
+    return as_num(M)
 
 
 # ---- is_ppt / is_npt ------------------------------------------------------------------------------
@@ -115,30 +216,47 @@ def ob_ppt_general(dA, dB, sys, dim_form, tol_mode):
         return [is_ppt(i["rho"], sys, dim), is_npt(i["rho"], sys, dim)]
 
     def oracle(i):
-        e = min_eig_at_least(pt_explicit(i["rho"], dA, dB, sys), -tol_of(i))
+        e = all_eigs_at_least(pt_explicit(i["rho"], dA, dB, sys), -tol_of(i))
         return [e, neg(e)]
 
     def exc_post(e, i):
         # only an omitted dim on unequal local dimensions may be rejected (documented: equal dimensions are assumed)
         return isinstance(e, ValueError) and not consistent
 
+    def margin_ok(ws, tol):
+        # no eigenvalue within a relative 1e-3 of the documented threshold -tol
+        return [(x + tol >= MARGIN * tol) | (x + tol <= -MARGIN * tol) for x in ws]
+
     def assume(i):
-        return [i["tol"] > 0, i["tol"] <= 1] if tol_mode == "given" else []
+        a = [i["tol"] > 0, i["tol"] <= 1] if tol_mode == "given" else []
+        if consistent:
+            a += margin_ok(eigs_h(pt_explicit(i["rho"], dA, dB, sys)), tol_of(i))
+        return a
 
     def valid(ni):
-        return tol_mode != "given" or 0 < ni["tol"] <= 1
+        if tol_mode == "given" and not 0 < ni["tol"] <= 1:
+            return False
+        if not consistent:
+            return True
+        t = tol_of(ni)
+        return all(abs(x + t) >= MARGIN * t for x in eigs_h(pt_explicit(ni["rho"], dA, dB, sys)))
+
+    def witness():
+        # concrete states whose partial transpose has its smallest eigenvalue at a stated fraction of the documented tolerance
+        out = []
+        for t in ([1e-3, 1e-6, 1e-10] if tol_mode == "given" else [SQRT_EPS]):
+            for c in (0.25, 0.75, 1.5):
+                for Q in (identity_q(n), householder(n)):
+                    lam = [1.0] * (n - 1) + [-c * t]
+                    rho = pt_explicit(q_diag_qt(Q, lam), dA, dB, sys)
+                    d = {"rho": np.array(rho, dtype=float)}
+                    if tol_mode == "given":
+                        d["tol"] = t
+                    out.append(d)
+        return out
     return Obligation("is_ppt.verdict_is_min_eigenvalue_of_partial_transpose_above_minus_tol", cfg, build, call, oracle,
-                      exc_post=exc_post, assume=assume, valid=valid, tv=False,
+                      exc_post=exc_post, assume=assume, valid=valid, tv=False, witness=witness,
                       neg=lambda exp: [neg(exp[0]), exp[1]])
-
-
-def householder(n):
-    """rational orthogonal matrix I - 2 vv^T/(v^T v), v = (1,...,1)"""
-    q = np.empty((n, n), dtype=object)
-    for a in range(n):
-        for c in range(n):
-            q[a, c] = Fraction(int(a == c)) - Fraction(2, n)
-    return q
 
 
 def ob_ppt_spectral(dA, dB, sys, basis, tol_mode):
@@ -146,7 +264,7 @@ def ob_ppt_spectral(dA, dB, sys, basis, tol_mode):
     is lam (kernel contract stated for this matrix), so the verdict must be (min lam >= -tol)."""
     cfg = {"dims": [dA, dB], "sys": sys, "family": f"PT_sys(rho) = Q diag(lam) Q^T, Q = {basis}", "tol": tol_mode}
     n = dA * dB
-    Q = householder(n) if basis == "householder(1..1)" else np.array([[Fraction(int(a == c)) for c in range(n)] for a in range(n)], dtype=object)
+    Q = householder(n) if basis == "householder(1..1)" else identity_q(n)
 
     def build(b):
         d = {"lam": [b.real(f"lam{k}") for k in range(n)]}
@@ -157,18 +275,8 @@ def ob_ppt_spectral(dA, dB, sys, basis, tol_mode):
     def tol_of(i):
         return i["tol"] if tol_mode == "given" else SQRT_EPS
 
-    def M_of(i):
-        M = np.empty((n, n), dtype=object)
-        for a in range(n):
-            for c in range(n):
-                tot = 0
-                for k in range(n):
-                    tot = tot + (Q[a, k] * Q[c, k]) * i["lam"][k]
-                M[a, c] = tot
-        return as_num(M)
-
     def rho_of(i):
-        return pt_explicit(M_of(i), dA, dB, sys)    # the partial transpose is an involution
+        return pt_explicit(q_diag_qt(Q, i["lam"]), dA, dB, sys)    # the partial transpose is an involution
 
     def call(i):
         rho = rho_of(i)
@@ -182,8 +290,9 @@ def ob_ppt_spectral(dA, dB, sys, basis, tol_mode):
 
     def assume(i):
         # spectral theorem for this matrix: the Hermitian eigenvalue kernel returns lam in ascending order
-        w = eigs_h(M_of(i))
+        w = eigs_h(q_diag_qt(Q, i["lam"]))
         lam = i["lam"]
+        tol = tol_of(i)
         facts = [w[k] <= w[k + 1] for k in range(n - 1)]
         facts += [Or(*[w[k].eq_solver(x) for x in lam]) for k in range(n)]
         facts += [Or(*[x.eq_solver(w[k]) for k in range(n)]) for x in lam]
@@ -192,30 +301,590 @@ def ob_ppt_spectral(dA, dB, sys, basis, tol_mode):
             tot_w, tot_l = tot_w + w[k], tot_l + lam[k]
         facts.append(tot_w.eq_solver(tot_l))
         facts += [x <= 4 for x in lam] + [x >= -4 for x in lam]
+        facts += [(x + tol >= MARGIN * tol) | (x + tol <= -MARGIN * tol) for x in lam]
         if tol_mode == "given":
             facts += [i["tol"] > 0, i["tol"] <= 1]
         return facts
 
     def valid(ni):
-        return (tol_mode != "given" or 0 < ni["tol"] <= 1) and all(abs(x) <= 4 for x in ni["lam"])
+        t = tol_of(ni)
+        return (tol_mode != "given" or 0 < t <= 1) and all(abs(x) <= 4 and abs(x + t) >= MARGIN * t for x in ni["lam"])
     return Obligation("is_ppt.known_spectrum_family_threshold_is_tol", cfg, build, call, oracle, assume=assume, valid=valid,
                       tv=False, neg=lambda exp: [neg(exp[0]), exp[1]])
 
 
+# ---- in_separable_ball ----------------------------------------------------------------------------
+def _trace_and_square(m, n):
+    m = np.asarray(m)
+    if m.ndim == 1:
+        tr, sq = 0, 0
+        for k in range(n):
+            tr, sq = tr + m[k], sq + m[k] * m[k]
+        return tr, sq
+    tr, sq = 0, 0
+    for a in range(n):
+        tr = tr + m[a, a].real
+        for c in range(n):
+            v = m[a, c]
+            sq = sq + v.real * v.real + v.imag * v.imag
+    return tr, sq
+
+
+def _ball_lemmas(m, n):
+    """elementary facts about t = 1/T, u = 1/R, q = sqrt(P) that linear arithmetic over monomials cannot derive; every one
+    follows from the defining constraints t*T = 1, u*R = 1, q >= 0, q*q = P (R = t^2 S > 0, T != 0)"""
+    m = np.asarray(m)
+    if m.ndim == 1:
+        mm = np.zeros((n, n), dtype=object)
+        for k in range(n):
+            mm[k, k] = m[k]
+        m = mm
+    T, S = _trace_and_square(m, n)
+    T, S = lift(T), lift(S)
+    t = 1 / T
+    R = lift(0)
+    for v in m.flat:
+        w = lift(v) * t
+        R = R + w.real * w.real + w.imag * w.imag
+    u = 1 / R
+    P = lift(0)
+    for a in range(n):
+        for c in range(n):
+            e = lift(m[a, c]) * t * u - (1 if a == c else 0)
+            P = P + e.real * e.real + e.imag * e.imag
+    q = P.sqrt()
+    c = n - 1
+    return [(q <= 1) == (P <= 1), (u * u * R).eq_solver(u), (u * t * T).eq_solver(u), (u >= c) == (c * R <= 1),
+            (c * R <= 1) == (c * S <= T * T)]
+
+
+def ob_ball(n, form, mode="lra"):
+    cfg = {"n": n, "input": form, "arithmetic": "linear + lemmas" if mode == "lra" else "nonlinear, no lemmas"}
+
+    def build(b):
+        if form == "hermitian matrix":
+            return {"m": b.array("m", (n, n), "h")}
+        if form == "real symmetric matrix":
+            return {"m": b.array("m", (n, n), "s")}
+        return {"m": b.array("m", (n,), "r")}
+
+    def call(i):
+        r = in_separable_ball(i["m"])
+        if mode == "lra" and is_symbolic(i["m"]):
+            T, _ = _trace_and_square(i["m"], n)
+            if not (T < n * EPS):
+                return [r, _ball_lemmas(i["m"], n)]
+        return [r, []]
+
+    def oracle(i):
+        # Gurvits-Barnum: rho = mat / Tr(mat) is in the ball iff Tr(rho^2) <= 1/(n-1); non-positive trace is outside
+        tr, sq = _trace_and_square(i["m"], n)
+        return [both(tr >= n * EPS, (n - 1) * sq <= tr * tr), both(tr >= n * EPS, n * sq <= tr * tr)]
+
+    def post(res, exp, i):
+        e = eq(res[0], exp[0])
+        return implies(And(*res[1]), e) if res[1] else e
+    return Obligation("in_separable_ball.is_trace_normalised_frobenius_test_of_gurvits_barnum", cfg, build, call, oracle, post=post,
+                      mode=mode, tv=False, neg=lambda exp: [exp[1], exp[0]], timeout_ms=120000,
+                      weight=20 if mode == "nra" else 1)
+
+
+# ---- has_symmetric_extension ----------------------------------------------------------------------
+def _hierarchy_stub(states, probs=None, level=2, dim=None):
+    """the SDP value as an uninterpreted function of the state"""
+    from toqito.state_opt.symmetric_extension_hierarchy import symmetric_extension_hierarchy as real
+    if not has_sym(states[0]):
+        return real(states, probs, level, dim)
+    return kernel("symmetric_extension_hierarchy_value", [states[0]], [((), "r")], extra=(level, repr(dim)),
+                  concrete=lambda m: real([m], None, level, dim))[0]
+
+
+def _picos_pt_stub(rho, subsystems, dimensions=2):
+    """picos.partial_trace(rho, [0]) on two qubits: trace over the first qubit"""
+    if not has_sym(rho):
+        import picos
+        return picos.partial_trace(rho, subsystems, dimensions)
+    assert list(subsystems) == [0] and np.asarray(rho).shape == (4, 4)
+    return _trace_first_qubit(rho).view(SymArray)
+
+
+def _trace_first_qubit(rho):
+    rho = np.asarray(rho)
+    out = np.empty((2, 2), dtype=object)
+    for j in range(2):
+        for l in range(2):
+            out[j, l] = rho[j, l] + rho[2 + j, 2 + l]
+    return out
+
+
+def _check_picos_stub():
+    import picos
+    x = np.arange(16).reshape(4, 4) + 1j * np.arange(16).reshape(4, 4).T
+    got = np.array(picos.partial_trace(x, [0]).value)
+    want = _trace_first_qubit(x).astype(complex)
+    if not np.allclose(got, want):
+        raise RuntimeError("picos.partial_trace stub disagrees with picos")
+
+
+HSE_PATCH = {"toqito.state_props.has_symmetric_extension": {"symmetric_extension_hierarchy": _hierarchy_stub,
+                                                            "partial_trace": _picos_pt_stub}}
+
+
+def ob_hse_shortcut(dA, dB, level, ppt, dim_form):
+    """level 1, or total dimension <= 6 with ppt: the verdict is the PSD kernel test (and the PPT kernel test when ppt)"""
+    cfg = {"dims": [dA, dB], "level": level, "ppt": ppt, "dim_arg": dim_form}
+    n = dA * dB
+
+    def build(b):
+        return {"rho": b.array("rho", (n, n), "h")}
+
+    def call(i):
+        return has_symmetric_extension(i["rho"], level, dim_argument(dim_form, dA, dB), ppt)
+
+    def oracle(i):
+        return [True, False]
+
+    def post(res, exp, i):
+        rho = i["rho"]
+        accept = all_eigs_at_least(rho, 0)
+        reject = some_eig_below(rho, -PSD_ATOL)
+        if ppt:
+            pt = pt_explicit(rho, dA, dB, 2)
+            accept = both(accept, all_eigs_at_least(pt, 0))
+            reject = disj_any([reject, some_eig_below(pt, -SQRT_EPS)])
+        if isinstance(accept, SymBool) or isinstance(reject, SymBool):
+            return implies(accept, eq(res, exp[0])) & implies(reject, eq(res, exp[1]))
+        return ((not accept) or bool(res) == exp[0]) and ((not reject) or bool(res) == exp[1])
+    return Obligation("has_symmetric_extension.shortcut_branches_accept_psd_ppt_states_and_reject_beyond_tolerance", cfg, build,
+                      call, oracle, post=post, tv=False, extra_patch=HSE_PATCH, neg=lambda exp: [exp[1], exp[0]])
+
+
+def _det4(m):
+    m = np.asarray(m)
+    tot = 0
+    for perm in itertools.permutations(range(4)):
+        sign = 1
+        for a in range(4):
+            for c in range(a + 1, 4):
+                if perm[a] > perm[c]:
+                    sign = -sign
+        term = sign
+        for a in range(4):
+            term = term * m[a, perm[a]]
+        tot = tot + term
+    return tot
+
+
+def ob_hse_two_qubit_closed_form(dim_form):
+    cfg = {"dims": [2, 2], "level": 2, "ppt": False, "dim_arg": dim_form}
+
+    def build(b):
+        return {"rho": b.array("rho", (4, 4), "h")}
+
+    def call(i):
+        return has_symmetric_extension(i["rho"], 2, dim_argument(dim_form, 2, 2), False)
+
+    def oracle(i):
+        rho = np.asarray(i["rho"])
+        rb = _trace_first_qubit(rho)
+        tr_b2, tr_2 = 0, 0
+        for j in range(2):
+            for l in range(2):
+                tr_b2 = tr_b2 + rb[j, l] * rb[l, j]
+        for a in range(4):
+            for c in range(4):
+                tr_2 = tr_2 + rho[a, c] * rho[c, a]
+        d = _det4(rho)
+        root = lift(d).real.sqrt() if is_symbolic(rho) else np.sqrt(np.real(d))
+        return (tr_b2.real >= tr_2.real - 4 * root) if is_symbolic(rho) else bool(np.real(tr_b2) >= np.real(tr_2) - 4 * root)
+
+    def valid(ni):
+        return np.real(np.linalg.det(ni["rho"])) > 1e-9
+    return Obligation("has_symmetric_extension.two_qubit_closed_form", cfg, build, call, oracle, valid=valid, tv=False,
+                      extra_patch=HSE_PATCH, neg=neg)
+
+
+def ob_hse_sdp_rule(dA, dB, ppt):
+    """no shortcut applies: the verdict is 'hierarchy value below 1 by more than tol' (value = uninterpreted symbol)"""
+    cfg = {"dims": [dA, dB], "level": 2, "ppt": ppt, "tol": 1e-4}
+    n = dA * dB
+
+    def build(b):
+        return {"rho": b.array("rho", (n, n), "h")}
+
+    def call(i):
+        return has_symmetric_extension(i["rho"], 2, [dA, dB], ppt)
+
+    def oracle(i):
+        v = _hierarchy_stub([i["rho"]], None, 2, None)
+        return v < 1 - 1e-4
+    return Obligation("has_symmetric_extension.otherwise_decided_by_hierarchy_value", cfg, build, call, oracle, tv=False,
+                      extra_patch=HSE_PATCH, neg=neg)
+
+
+# ---- is_separable ---------------------------------------------------------------------------------
+class BeyondSymbolicFragment(Exception):
+    """raised by the stubs below where symbolic execution stops (data-dependent permutation / shape)"""
+
+
+_SEP_MODE = {"argsort": "cut"}
+_core_eig = HANDLERS[np.linalg.eig]
+
+
+@handles(np.linalg.eig)
+def _h_eig(a):
+    """np.linalg.eig of an exactly real-symmetric matrix: real spectrum (kernel contract d); otherwise the core handler"""
+    a = sarr(a)
+    L = lifted(a)
+    n = a.shape[0]
+    sym = all((not L[i, j].im.t) and L[i, j].key() == L[j, i].key() for i in range(n) for j in range(n))
+    if not sym:
+        return _core_eig(a)
+    w = kernel("eig_symmetric_vals", [a], [((n,), "r")], concrete=lambda m: np.real(np.linalg.eig(m)[0]))[0]
+    v = kernel("eig_symmetric_vec", [a], [((n, n), "r")], concrete=lambda m: np.real(np.linalg.eig(m)[1]))[0]
+    return _EighResult(w, v)
+
+
+@handles(np.argsort)
+def _h_argsort(a, *args, **kw):
+    a = sarr(a)
+    ex = cur().explorer
+    if _SEP_MODE["argsort"] == "cut" or a.ndim != 1 or ex is None or any(lift(v).im.t for v in a.flat):
+        raise BeyondSymbolicFragment("argsort of symbolic values")
+    # under-approximation: continue on the paths where the values already are in ascending order
+    for k in range(a.shape[0] - 1):
+        ex.pc.append(as_z3(a[k] <= a[k + 1]))
+    cur().stubs.add("np.argsort: identity on the paths where the argument is already sorted (under-approximation)")
+    return np.arange(a.shape[0])
+
+
+def _orth_cut(*a, **k):
+    raise BeyondSymbolicFragment("scipy.linalg.orth: data-dependent shape")
+
+
+SEP_PATCH = dict(HSE_PATCH)
+SEP_PATCH["toqito.state_props.is_separable"] = {"orth": _orth_cut}
+
+
+def _sep_call(rho, dim, tol=None, mode="cut"):
+    _SEP_MODE["argsort"] = mode
+    try:
+        if tol is None:
+            return is_separable(rho, dim)
+        return is_separable(rho, dim, 2, tol)
+    finally:
+        _SEP_MODE["argsort"] = "cut"
+
+
+def _psd_rejected(rho):
+    """the documented ValueError: the input fails the PSD kernel test"""
+    return some_eig_below(rho, -PSD_ATOL)
+
+
+def _nonzero_trace(rho):
+    t = trace_explicit(rho)
+    return [(t.real > 1e-6) | (t.real < -1e-6)]
+
+
+def ob_sep_small(dA, dB, dim_form, tol_mode):
+    """total dimension <= 6: verdict == PPT criterion on the normalised state"""
+    cfg = {"dims": [dA, dB], "dim_arg": dim_form, "tol": tol_mode}
+    n = dA * dB
+
+    def build(b):
+        d = {"rho": b.array("rho", (n, n), "h")}
+        if tol_mode == "given":
+            d["tol"] = b.real("tol")
+        return d
+
+    def call(i):
+        return _sep_call(i["rho"], dim_argument(dim_form, dA, dB), i.get("tol"))
+
+    def oracle(i):
+        st = normalised(i["rho"])
+        if tol_mode == "given":
+            # the PPT criterion as implemented by is_ppt for the same tolerance (its threshold is pinned by the is_ppt obligations)
+            return is_ppt(st, 2, [dA, dB], i["tol"])
+        return all_eigs_at_least(pt_explicit(st, dA, dB, 2), -SEP_TOL)
+
+    def exc_post(e, i):
+        return both(isinstance(e, ValueError), _psd_rejected(i["rho"]))
+
+    def assume(i):
+        a = _nonzero_trace(i["rho"])
+        if tol_mode == "given":
+            a += [i["tol"] > 0, i["tol"] <= 1]
+        else:
+            a += [(x + SEP_TOL >= MARGIN * SEP_TOL) | (x + SEP_TOL <= -MARGIN * SEP_TOL)
+                  for x in eigs_h(pt_explicit(normalised(i["rho"]), dA, dB, 2))]
+        return a
+
+    def valid(ni):
+        if abs(np.trace(ni["rho"])) <= 1e-6 or (tol_mode == "given" and not 0 < ni["tol"] <= 1):
+            return False
+        return tol_mode == "given" or all(abs(x + SEP_TOL) >= MARGIN * SEP_TOL
+                                          for x in eigs_h(pt_explicit(normalised(ni["rho"]), dA, dB, 2)))
+    name = "is_separable.small_dimensions_agree_with_ppt_criterion" if tol_mode == "default" else \
+        "is_separable.small_dimensions_agree_with_is_ppt_for_the_given_tolerance"
+    return Obligation(name, cfg, build, call, oracle, exc_post=exc_post, assume=assume, valid=valid, tv=False,
+                      extra_patch=SEP_PATCH, neg=neg)
+
+
+def ob_sep_npt(dA, dB, party):
+    """a partial transpose (on either party) negative by a margin => never declared separable"""
+    cfg = {"dims": [dA, dB], "negative_partial_transpose_on_party": party, "margin": "min eigenvalue < -2e-8 (tol = 1e-8)"}
+    n = dA * dB
+
+    def build(b):
+        return {"rho": b.array("rho", (n, n), "h")}
+
+    def call(i):
+        return _sep_call(i["rho"], [dA, dB])
+
+    def oracle(i):
+        return False
+
+    def exc_post(e, i):
+        return both(isinstance(e, ValueError), _psd_rejected(i["rho"]))
+
+    def assume(i):
+        st = normalised(i["rho"])
+        w2 = eigs_h(pt_explicit(st, dA, dB, 2))
+        a = _nonzero_trace(i["rho"])
+        if party == 2:
+            return a + [Or(*[x < -2 * SEP_TOL for x in w2])]
+        # PT_1(rho) is the transpose of PT_2(rho): same spectrum (kernel contract b)
+        w1 = eigs_h(pt_explicit(st, dA, dB, 1))
+        return a + [Or(*[x < -2 * SEP_TOL for x in w1])] + [w1[k].eq_solver(w2[k]) for k in range(n)]
+
+    def valid(ni):
+        if abs(np.trace(ni["rho"])) <= 1e-6:
+            return False
+        return min(eigs_h(pt_explicit(normalised(ni["rho"]), dA, dB, party))) < -2 * SEP_TOL
+    return Obligation("is_separable.negative_partial_transpose_is_never_declared_separable", cfg, build, call, oracle,
+                      exc_post=exc_post, assume=assume, valid=valid, tv=False, extra_patch=SEP_PATCH, neg=neg,
+                      max_paths=400, weight=3 if n > 6 else 1)
+
+
+def family_vector(d, s, cplx):
+    """deterministic vector on the moment curve (1, x, x^2, ...), x a rational (complex: Gaussian rational) indexed by s"""
+    x = Fraction((7 * s) % 23 - 11, 4)
+    y = Fraction((3 * s) % 5 - 2, 3) if cplx else 0
+    out = []
+    for j in range(d):
+        out.append(complex(float(x), float(y)) ** j if cplx else x ** j)
+    return out
+
+
+def product_projector(a, b):
+    """(a a^dagger) (x) (b b^dagger), explicit"""
+    dA, dB = len(a), len(b)
+    out = np.empty((dA * dB, dA * dB), dtype=object)
+    for p in range(dA):
+        for q in range(dB):
+            for r in range(dA):
+                for s in range(dB):
+                    out[p * dB + q, r * dB + s] = (a[p] * a[r].conjugate()) * (b[q] * b[s].conjugate())
+    return out
+
+
+def background_state(dA, dB, terms=4):
+    """fixed separable background: sum of `terms` rational real product projectors of the deterministic family"""
+    tot = None
+    for k in range(terms):
+        p = product_projector(family_vector(dA, 2 * k + 1, False), family_vector(dB, 2 * k + 2, False))
+        tot = p if tot is None else tot + p
+    return tot
+
+
+def ob_sep_mixture(dA, dB, K, kind, mode, dim_form="list", background=False):
+    """rho = sum_k a_k a_k^dagger (x) b_k b_k^dagger (+ fixed separable background): no path may end in an exception; for total
+    dimension <= 6 the verdict is True"""
+    n = dA * dB
+    cfg = {"dims": [dA, dB], "terms": K, "entries": {"r": "real", "c": "complex"}[kind], "dim_arg": dim_form,
+           "explored": "all kernel outcomes up to the spectrum sort (line 153)" if mode == "cut" else
+                       "full cascade on the paths where np.linalg.eig returns a real descending spectrum",
+           "background": "fixed 4-term rational product mixture" if background else None}
+    small = n <= 6
+    bg = background_state(dA, dB) if background else None
+
+    def build(b):
+        return {"a": [b.array(f"a{k}", (dA,), kind) for k in range(K)], "b": [b.array(f"b{k}", (dB,), kind) for k in range(K)]}
+
+    def rho_of(i):
+        tot = bg
+        for k in range(K):
+            p = product_projector(list(np.asarray(i["a"][k])), list(np.asarray(i["b"][k])))
+            tot = p if tot is None else tot + p
+        return as_num(tot)
+
+    def call(i):
+        return _sep_call(rho_of(i), dim_argument(dim_form, dA, dB), None, mode)
+
+    def oracle(i):
+        return True
+
+    def post(res, exp, i):
+        return eq(res, exp) if small else True
+
+    def exc_post(e, i):
+        return isinstance(e, BeyondSymbolicFragment)
+
+    def assume(i):
+        rho = rho_of(i)
+        t = trace_explicit(rho)
+        facts = [t.real > 1e-6]
+        facts += [x >= 0 for x in eigs_h(rho)]                                          # PSD by construction
+        facts += [x >= 0 for x in eigs_h(pt_explicit(normalised(rho), dA, dB, 2))]     # its partial transpose too
+        return facts
+
+    def valid(ni):
+        return np.real(np.trace(rho_of(ni))) > 1e-6
+    return Obligation("is_separable.product_mixtures_never_raise_and_small_ones_are_separable", cfg, build, call, oracle,
+                      post=post, exc_post=exc_post, assume=assume, valid=valid, tv=False, extra_patch=SEP_PATCH,
+                      neg_control=small, neg=neg, max_paths=600, weight=40 if n >= 16 else (10 if n > 6 else 1),
+                      wall_cap_s=900)
+
+
+# ---- concrete-instance obligations (what symbolic execution cannot reach) -------------------------
+def concrete_mixture(dA, dB, K, cplx):
+    tot = None
+    for k in range(K):
+        a = np.array(family_vector(dA, 2 * k + 1, cplx), dtype=complex if cplx else float)
+        b = np.array(family_vector(dB, 2 * k + 2, cplx), dtype=complex if cplx else float)
+        a, b = a / np.linalg.norm(a), b / np.linalg.norm(b)
+        p = np.kron(np.outer(a, a.conj()), np.outer(b, b.conj())) / K
+        tot = p if tot is None else tot + p
+    return tot
+
+
+class ConcreteSeparable(Task):
+    """the real function on one member of the deterministic family of product mixtures; expected: True, no exception"""
+    engine = "concrete-instance (execution of the real code on a stated deterministic family; no solver)"
+    wall_cap_s = 900
+
+    def __init__(self, name, cfg, fn, weight=5):
+        super().__init__(name, cfg)
+        self.fn, self.weight = fn, weight
+
+    def _instance(self):
+        c = self.cfg
+        return concrete_mixture(c["dims"][0], c["dims"][1], c["terms"], c["entries"] == "complex")
+
+    def _verdict(self):
+        rho = self._instance()
+        try:
+            res = self.fn(rho)
+        except Exception as e:  # noqa: BLE001
+            tb = traceback.extract_tb(e.__traceback__)
+            fr = [f for f in tb if "/toqito/" in f.filename]
+            where = f" at {fr[-1].filename.split('/toqito/')[-1]}:{fr[-1].lineno}" if fr else ""
+            return False, {"exception": f"{type(e).__name__}: {str(e)[:160]}{where}", "expected": True}, rho
+        return bool(res) is True, {"actual": bool(res), "expected": True}, rho
+
+    def _run(self, rec, seed):
+        ok, detail, rho = self._verdict()
+        rec["paths"], rec["reachable"] = 1, True
+        rec["notes"].append("concrete instance, no solver query")
+        if ok:
+            rec["status"] = "discharged"
+        else:
+            rec["status"] = "violation"
+            rec["violation"] = {"source": "concrete instance of the stated family", "inputs": {"rho": jsonable(rho)}, **detail}
+
+    def replay(self, rp):
+        ok, detail, _ = self._verdict()
+        print(detail)
+        return ok
+
+
+def concrete_tasks(T):
+    out = []
+    dims = [(2, 2), (2, 3), (3, 2), (2, 4), (4, 2), (3, 3), (4, 4)] + ([(3, 4), (4, 3), (2, 5)] if T else [])
+    for dA, dB in dims:
+        n = dA * dB
+        for K in [1, 2, 3, 5, n + 1]:
+            for cplx in (False, True):
+                for form in (["list", "omitted"] if dA == dB else ["list"]):
+                    if form == "omitted" and not (K == 3 and not cplx):
+                        continue
+                    cfg = {"dims": [dA, dB], "terms": K, "entries": "complex" if cplx else "real", "dim_arg": form,
+                           "family": "sum_k (1/K) P(a_k) (x) P(b_k), a_k, b_k on the moment curve (see family_vector)"}
+                    dim = [dA, dB] if form == "list" else None
+                    out.append(ConcreteSeparable("is_separable.concrete_product_mixtures_are_declared_separable", cfg,
+                                                 lambda rho, dim=dim: is_separable(rho, dim)))
+    for dA, dB in [(2, 2), (2, 3), (3, 3), (2, 4)]:
+        for K in [1, 3, dA * dB + 1]:
+            for level, ppt in [(1, True), (2, True), (2, False)]:
+                cfg = {"dims": [dA, dB], "terms": K, "entries": "complex", "level": level, "ppt": ppt,
+                       "family": "sum_k (1/K) P(a_k) (x) P(b_k), a_k, b_k on the moment curve (see family_vector)"}
+                out.append(ConcreteSeparable("has_symmetric_extension.concrete_product_mixtures_are_accepted", cfg,
+                                             lambda rho, d=[dA, dB], level=level, ppt=ppt: has_symmetric_extension(rho, level, d, ppt)))
+    return out
+
+
+# ---- the obligations ------------------------------------------------------------------------------
 def obligations(tier):
     T = tier == "thorough"
+    _check_picos_stub()
     obs = []
-    dims = [(2, 2), (2, 3), (3, 2)] + ([(3, 3), (2, 4)] if T else [])
-    for dA, dB in dims:
+    # is_ppt / is_npt
+    for dA, dB in [(2, 2), (2, 3), (3, 2)] + ([(3, 3), (2, 4)] if T else []):
         for sys in (1, 2):
             for form in ("list", "int", "omitted"):
                 if form == "omitted" and dA != dB and (dA, dB) != (2, 3):
                     continue
                 for tol_mode in ("default", "given"):
+                    if tol_mode == "given" and form != "list":
+                        continue
                     obs.append(ob_ppt_general(dA, dB, sys, form, tol_mode))
     for dA, dB in [(2, 2), (2, 3)] + ([(3, 3)] if T else []):
         for sys in (1, 2):
             for basis in ("identity", "householder(1..1)"):
                 for tol_mode in ("default", "given"):
                     obs.append(ob_ppt_spectral(dA, dB, sys, basis, tol_mode))
+    # separable ball
+    for n in [2, 3, 4, 6] + ([8, 9] if T else []):
+        for form in ("hermitian matrix", "real symmetric matrix", "eigenvalue vector"):
+            obs.append(ob_ball(n, form))
+    obs.append(ob_ball(2, "hermitian matrix", "nra"))
+    obs.append(ob_ball(3, "real symmetric matrix", "nra"))
+    obs.append(ob_ball(4, "eigenvalue vector", "nra"))
+    # symmetric extension: branch structure
+    for dA, dB in [(2, 2), (2, 3), (3, 2)]:
+        for level in (1, 2):
+            for form in ("list", "int") + (("omitted",) if dA == dB else ()):
+                obs.append(ob_hse_shortcut(dA, dB, level, True, form))
+        obs.append(ob_hse_shortcut(dA, dB, 1, False, "list"))
+    for dA, dB in [(3, 3), (2, 4)]:
+        for ppt in (True, False):
+            obs.append(ob_hse_shortcut(dA, dB, 1, ppt, "list"))
+    for form in ("list", "int", "omitted"):
+        obs.append(ob_hse_two_qubit_closed_form(form))
+    for dA, dB, ppt in [(3, 3, True), (3, 3, False), (2, 4, True), (2, 3, False)]:
+        obs.append(ob_hse_sdp_rule(dA, dB, ppt))
+    # is_separable
+    for dA, dB in [(2, 2), (2, 3), (3, 2)]:
+        for form in ("list", "int") + (("omitted",) if (dA, dB) != (3, 2) else ()):
+            obs.append(ob_sep_small(dA, dB, form, "default"))
+        obs.append(ob_sep_small(dA, dB, "list", "given"))
+    for dA, dB in [(2, 2), (2, 3), (3, 2), (3, 3), (2, 4), (4, 2)] + ([(4, 4), (3, 4)] if T else []):
+        for party in (1, 2):
+            obs.append(ob_sep_npt(dA, dB, party))
+    for dA, dB in [(2, 2), (2, 3), (3, 2)]:
+        for K in (1, 2) + ((3,) if T else ()):
+            for kind in ("r", "c"):
+                obs.append(ob_sep_mixture(dA, dB, K, kind, "cut"))
+        obs.append(ob_sep_mixture(dA, dB, 1, "r", "cut", "int"))
+    for dA, dB in [(2, 4), (4, 2), (3, 3)] + ([(3, 4)] if T else []):
+        for K in (1, 2):
+            for kind in ("r", "c"):
+                if K == 2 and kind == "c" and not T:
+                    continue
+                obs.append(ob_sep_mixture(dA, dB, K, kind, "cut"))
+    obs.append(ob_sep_mixture(3, 3, 1, "r", "cut", "omitted"))
+    obs.append(ob_sep_mixture(3, 3, 1, "r", "sorted", background=True))
+    obs.append(ob_sep_mixture(4, 4, 1, "r", "sorted", background=True))
+    obs.append(ob_sep_mixture(4, 4, 1, "r", "cut"))
+    obs += concrete_tasks(T)
     return obs
